@@ -1,11 +1,21 @@
 #!/usr/bin/env python3
 """Prints the prompt given to a fresh sub-agent that seeds property-breaking changes (it sees only
 the property text and a scratch worktree of /repo — nothing from /verif)."""
-import json, sys
+import json, sys, os
 pid = sys.argv[1]; n = int(sys.argv[2]) if len(sys.argv) > 2 else 3
 hint = sys.argv[3] if len(sys.argv) > 3 else ""
+# ROUND2: mention what earlier rounds already tried, so that a new round explores other mechanisms
+import os
+prev = []
+for d in sorted(os.listdir("/verif/seeded")) if os.path.isdir("/verif/seeded") else []:
+    if d.startswith(pid + "-"):
+        try: prev.append(json.load(open(f"/verif/seeded/{d}/meta.json")).get("summary", "")[:300].replace("\n", " "))
+        except Exception: pass
+suffix = os.environ.get("SEED_SUFFIX", "")
+if prev:
+    hint += " An earlier round already produced the following changes; produce changes of OTHER kinds, in other functions / clauses / mechanisms: " + " || ".join(prev)
 p = [json.loads(l) for l in open('/verif/properties.jsonl') if json.loads(l)['id'] == pid][0]
-low = pid.lower()
+low = pid.lower() + os.environ.get('SEED_SUFFIX', '')
 files = ", ".join(p['anchors']['files'])
 feat = {
  "proto": "cargo nextest run --offline -p hickory-proto --features dnssec-ring",
@@ -24,6 +34,6 @@ YOUR TASK: produce {n} independent, realistic changes to hickory-dns (each a sep
  (c) BREAKS the property above, but only in a way that needs something specific to manifest — a particular interleaving, a fault at a particular point, a multi-step sequence of operations, an unusual input (values near a limit, a particular size/offset/count, particular octets), or two cooperating sites that each look fine alone — NOT something ordinary use or the existing tests would expose at once. Think of the kind of mistake a maintainer could plausibly make in a refactoring or an "optimisation" (an off-by-one on a limit, a fast path that skips a check, a comparison that short-circuits, a cache keyed too coarsely, a wrong mask, state not reset on one path, a boundary handled with < instead of <=, …). Spread the changes over different clauses/mechanisms of the property. Keep each patch small (a few lines). {hint}
  (d) comes with a demonstration: a small Rust test in a NEW file (an integration test under the touched crate's `tests/` directory using public API, or a new `#[cfg(test)]` module file included from the crate if private access is needed — in that case the include line belongs to the demo, not to the patch) that FAILS with your change applied and PASSES on the unchanged tree. Verify both directions yourself.
 
-Deliver, for each change k = 1..{n}, a directory `/tmp/seed-{low}/OUT/<k>/` containing: `patch.diff` (`git diff` of the source change only, applicable with `git apply` on a clean checkout of HEAD), `demo.rs` (the demonstration test file; first line a comment saying where to put it and how to run it, e.g. `// crates/proto/tests/seed_{low}_1.rs ; cargo test --offline -p hickory-proto --features dnssec-ring --test seed_{low}_1`; if the demo needs an extra line elsewhere (e.g. `mod seed;`), say so in that comment), and `meta.json` with keys `property` ("{pid}"), `summary` (what the change does), `needs` (what specific input/sequence/schedule it needs in order to manifest), `demo_cmd`, `suite_cmd` (what you ran for (b)) and `suite_result` (e.g. "no new failures vs unchanged tree: N passed, M failed (same M network tests)"). After producing each patch, restore the tree to clean HEAD (`git checkout -- . && git clean -fd -e OUT -e target`) before starting the next so that the patches are independent. Do not commit anything. Leave `/tmp/seed-{low}/OUT` in place at the end and the working tree otherwise clean.
+Deliver, for each change k = 1..{n}, a directory `/tmp/seed-{low}/OUT/<k>/` containing: `patch.diff` (`git diff` of the source change only, applicable with `git apply` on a clean checkout of HEAD), `demo.rs` (the demonstration test file; first line a comment saying where to put it and how to run it, e.g. `// crates/proto/tests/seed_{low}_1.rs ; cargo test --offline -p hickory-proto --features dnssec-ring --test seed_{low}_1`; if the demo needs an extra line elsewhere (e.g. `mod seed;`), say so in that comment), and `meta.json` with keys `property` ("{pid}"), `summary` (what the change does), `needs` (what specific input/sequence/schedule it needs in order to manifest), `demo_cmd`, `suite_cmd` (what you ran for (b)) and `suite_result` (e.g. "no new failures vs unchanged tree: N passed, M failed (same M network tests)"). After producing each patch, restore the tree to clean HEAD (`git checkout -- . && git clean -fd -e OUT -e target`) before starting the next so that the patches are independent. Do not commit anything and do not use `git stash` (the stash is shared by all worktrees of the repository; use `git diff > file`, `git checkout -- .`, `git apply file` instead). Leave `/tmp/seed-{low}/OUT` in place at the end and the working tree otherwise clean.
 
 In your final message list the changes (one paragraph each: what, why it passes the suite, what exposes it) — nothing else is needed.""")
